@@ -107,6 +107,9 @@ def check_doc(doc, push0, stats, label, single=False):
     text = json.dumps(doc)
     r = pipeline.gasol(roundtrip_doc, text, push0, single, cpu=120)
     stats.evaluations += 1
+    if r.kind == "timeout":
+        stats.inconclusive += 1               # wall-clock limit of the harness: machine load, not the tool
+        return fails
     if r.kind != "ok":
         cul = r.info[0] if r.kind == "exc" else r.kind
         fails.append(runner.Failure("parse-raised", str(cul), "parsing/serializing %s raised %s" % (label, str(r.info)[:300]),
@@ -222,6 +225,9 @@ def check_spelling(c, how, push0, stats):
     if how != "canon":
         stats.nontrivial.add(runner.jhash([c, how, push0]))
     stats.classes["spelling " + how] += 1
+    if r.kind == "timeout":
+        stats.inconclusive += 1
+        return fails
     if r.kind != "ok":
         fails.append(runner.Failure("spelling-raised", how, "parsing %r raised %s" % (text, str(r.info)[:200]), {"type": "spelling", "c": c, "how": how, "push0": push0}))
         return fails
